@@ -226,7 +226,9 @@ def h1(rep, src, gkv, fold, pred_name):
     pname = [p["pat"]["name"] for p in fr.params if not p.get("self")][0]
     conv = {}
     try:
-        m = tail_expr(fr.body)
+        from .canon import canon_view
+
+        m = tail_expr(canon_view(fr, src, iflet=True).body)  # `if let P = v { a } else { b }` reads as `match v { P => a, _ => b }`
         if m["k"] != "match" or path_of(m["e"]) != pname:
             raise Undecided("body is not a match on the argument: %s" % show(m, 60))
         for st in STATES:
@@ -788,7 +790,9 @@ def run(rep):
         "reach the lookup from SQL (joins, aliases, CTE shadowing)."
     )
     src = Src(facts.src_facts())
-    gkv = src.one_fn(name="get_key_value", file=HF, self_ty_re=r"^Hierarchy<")
+    from .canon import canon_view
+
+    gkv = canon_view(src.one_fn(name="get_key_value", file=HF, self_ty_re=r"^Hierarchy<"), src, helpers=False)  # named locals (`let found = ..fold(..)`) read through
     fold, pred = h2(rep, src, gkv)
     if fold is None:
         rep.rule("H1", "ambiguity is absorbing (fold of get_key_value)", floor=9)
